@@ -8,7 +8,7 @@
    [no_fail] = every URL resolves, within max-redirect hops, to a page that is not an error. *)
 From Coq Require Import List NArith Bool Arith.
 From Wpull Require Import Model.Engine Model.EngineSim Proofs.EngineProofs Proofs.EngineRun Proofs.EngineFinal
-  Proofs.EngineOnce Proofs.EngineTerm Proofs.EngineWitness.
+  Proofs.EngineOnce Proofs.EngineTerm Proofs.EngineWitness Proofs.EngineBfs Proofs.EngineBfsWitness.
 Import ListNotations.
 Open Scope N_scope.
 
@@ -109,6 +109,18 @@ Theorem C01_complete_path_independent :
     forall u, In u (urls (st_tbl s)) <-> exists p, Der site host in_scope maxredir starts p /\ ri_url p = u.
 Proof. exact quiescent_urls. Qed.
 Print Assumptions C01_complete_path_independent.
+
+(* ONE worker: schedule independence holds with no guard at all - the producer may run ahead of the worker by any number
+   of check-outs, the process may be killed and restarted anywhere: every finished crawl has the same table (same rows,
+   same recorded level / parent / root, same order: the breadth-first list) and has made the same requests. *)
+Theorem C01_one_worker_schedule_independent :
+  forall site host in_scope maxredir starts, scope_ext_hyp in_scope ->
+  forall s1 s2, no_fail site maxredir ->
+    reach site host in_scope maxredir starts 1 s1 -> quiescent site host in_scope maxredir starts 1 s1 ->
+    reach site host in_scope maxredir starts 1 s2 -> quiescent site host in_scope maxredir starts 1 s2 ->
+    infos (st_tbl s1) = infos (st_tbl s2) /\ (forall e, In e (st_log s1) <-> In e (st_log s2)).
+Proof. exact one_worker_schedule_independent. Qed.
+Print Assumptions C01_one_worker_schedule_independent.
 
 Theorem C01_schedule_independent_refuted :
   exists site host in_scope maxredir starts conc s1 s2 u,
